@@ -101,7 +101,7 @@ def run(chk, tier, replay):
     # 2. XXH64
     maxlen = 100 if tier == "quick" else 300
     pats = "{0, 2, 3}" if tier == "quick" else "{0, 1, 2, 3, 4, 5}"
-    cfgt = ('CONSTANTS\n MaxLen = %d\n Patterns = %s\n Kind = "xxh"\nINIT Init\nNEXT Next\n'
+    cfgt = ('CONSTANTS\n MaxLen = %d\n Patterns = %s\n Kind = "xxh"\n BigLens = {}\nINIT Init\nNEXT Next\n'
             'INVARIANT Emit\nCHECK_DEADLOCK FALSE\n' % (maxlen, pats))
     r = common.tlc_ok(common.run_tlc("MC_HashCases", constants_text=cfgt, timeout=3000), "MC_HashCases xxh")
     chk.add_tlc(r)
